@@ -312,6 +312,43 @@ def check(model, rep, tier):
             'a simple statement is replaced by its extracted statements '
             'followed by itself', line=ss.node.lineno if ss else None)
 
+  # ---------------------------------------------------------------- ANF-TARGET
+  # a binding or deletion target is not a value: the step that replaces a node
+  # by a fresh variable is reached only for nodes whose ctx is not Store / Del
+  rep.rule('ANF-TARGET', 'nodes in Store / Del context are never replaced by a '
+           'temporary', floor=1)
+  en_ = cls.methods.get('_ensure_node_in_anf')
+  if en_ is None:
+    raise core.AnalysisError('_ensure_node_in_anf not found')
+  env_ = en_.view(keep=('_do_transform_node', '_ensure_fields_in_anf', '_should_transform'))
+  np_ = en_.params()[2] if len(en_.params()) > 2 else en_.params()[-1]
+  repl = [c for c in ast.walk(env_) if isinstance(c, ast.Call) and core.norm(c.func) ==
+          'self._do_transform_node']
+  okt = bool(repl)
+  facts_t = []
+  for c in repl:
+    arg = core.norm(c.args[0]) if c.args else None
+    ctx_forms = ("getattr(%s, 'ctx', None)" % arg, '%s.ctx' % arg)
+    guarded = False
+    for pol, tst in formula.path_condition(env_, c):
+      if pol == 'C' or not (isinstance(tst, ast.Call) and core.dotted(tst.func) ==
+                            'isinstance' and len(tst.args) == 2):
+        continue
+      if core.norm(tst.args[0]) not in ctx_forms:
+        continue
+      kinds = {core.dotted(k).split('.')[-1] for k in (
+          tst.args[1].elts if isinstance(tst.args[1], ast.Tuple) else [tst.args[1]])}
+      if (pol == 'F' and {'Store', 'Del'} <= kinds) or (pol == 'T' and kinds == {'Load'}):
+        guarded = True
+    facts_t.append({'replaces': arg, 'guarded_by_ctx': guarded})
+    okt = okt and guarded
+  rep.check(okt, 'ANF-TARGET', '%s:targets-kept' % en_.site,
+            'a node in Store or Del context (the target of `with .. as`, an element '
+            'of a deleted or assigned tuple) can be replaced by a temporary: the '
+            'statement then reads the target and binds / deletes the temporary',
+            {'replacements': facts_t}, line=en_.node.lineno,
+            witness='with cm() as obj.attr: ...   /   del (a[i()], b[j()])')
+
   # ---------------------------------------------------------------- ANF-CLASSES
   m = model.module(ANF)
   dead = fieldtypes.dead_class_refs(m)
